@@ -20,7 +20,7 @@ func (c09) ID() string { return "C09" }
 func (c09) Plan(tier string) fw.Plan {
 	p := fw.Plan{
 		Batches: 16, Cases: 160, TimeoutSec: 900, Level: "exploration",
-		Rule: "one case = one random type system (as in C08) bound with bindnode; per composite type 6 conforming values, each fed unmutated and under 6 random local mutations (drop / duplicate / rename / rename-to-sibling / serial-vs-original-name / reverse / null an entry or element; add unknown entry; extra or missing tuple element; second union entry; unknown or out-of-range enum member; extra stringjoin part; retype at any position) at type level and at representation level, (a) directly as assembler call sequences (so repeated keys reach the builder) and (b) encoded as dag-cbor (decoded in relaxed mode, which keeps duplicates) and dag-json and decoded into the representation builder. Oracle: reference conformance (lib/ref/schema ParseType/ParseRepr); accept/reject must agree, rejection must be an error (a panic is a violation), and an accepted input must read back as the typed value the input denotes. Generated code runs the same monitor inside C13. Non-trivial: mutated input; distinct by (type, input) hash.",
+		Rule:        "one case = one random type system (as in C08) bound with bindnode; per composite type 6 conforming values, each fed unmutated and under 6 random local mutations (drop / duplicate / rename / rename-to-sibling / serial-vs-original-name / reverse / null an entry or element; add unknown entry; extra or missing tuple element; second union entry; unknown or out-of-range enum member; extra stringjoin part; retype at any position) at type level and at representation level, (a) directly as assembler call sequences (so repeated keys reach the builder) and (b) encoded as dag-cbor (decoded in relaxed mode, which keeps duplicates) and dag-json and decoded into the representation builder. Oracle: reference conformance (lib/ref/schema ParseType/ParseRepr); accept/reject must agree, rejection must be an error (a panic is a violation), and an accepted input must read back as the typed value the input denotes. Generated code runs the same monitor inside C13. Non-trivial: mutated input; distinct by (type, input) hash.",
 		Assumptions: []string{"lib/ref/schema decides conformance", "floats are kept out of the dag-json leg (C04's known finding)"},
 		MinEvents:   []string{"type_systems", "conformance_feeds", "conformance_accepted", "conformance_rejected", "mutations_fed", "fed_via_dag-cbor", "fed_via_dag-json", "reference_accepts_mutation", "reference_rejects_mutation"},
 	}
@@ -111,4 +111,5 @@ func c09HasFloat(v model.Val) bool {
 	return f
 }
 
-func hasComplexKeyInput(ts *rs.TypeSystem, t *rs.Type) bool { return typedmon.HasComplexKeys(ts, t) }
+// type-level inputs of maps with STRUCT keys cannot be written as plain trees; enum keys (member names) can
+func hasComplexKeyInput(ts *rs.TypeSystem, t *rs.Type) bool { return typedmon.HasStructKeys(ts, t) }
